@@ -27,6 +27,12 @@
 EXTENDS Cfg, TraceLib
 
 CONSTANT K
+\* The languages are compared up to length K; the number of sequences grows with the number of conditional
+\* edges, so for densely branching graphs (random histories, a graph appended to itself) the bound is lowered:
+\* the comparison stays exact up to the bound used, and every session stays checkable in seconds.
+CondEdges(G) == Cardinality({ e \in G.E : e.c # Uncond })
+KOf(G1, G2) == LET n == IF CondEdges(G1) > CondEdges(G2) THEN CondEdges(G1) ELSE CondEdges(G2) IN
+               IF n <= 6 THEN K ELSE IF n <= 9 THEN (IF K < 6 THEN K ELSE 6) ELSE IF n <= 12 THEN (IF K < 5 THEN K ELSE 5) ELSE (IF K < 4 THEN K ELSE 4)
 
 VARIABLES l, skip, G
 vars == <<l, skip, G>>
@@ -130,14 +136,14 @@ AppendProblems(e, g, g2, evaluable) ==
   \o (IF Has(e.res, "ok")
       THEN IF ~pre THEN <<"ok-but-precondition-false">>
            ELSE IF ~evaluable THEN <<>>
-           ELSE LET got == Langs(g2, K)
-                    exp == AppendExpected(g, h, K) IN
+           ELSE LET got == Langs(g2, KOf(g, g2))
+                    exp == AppendExpected(g, h, KOf(g, g2)) IN
                 P(got[1] = exp[1], "language-not-first-then-second") \o
                 P(got[2] = exp[2], "exit-language-not-first-then-second")
       ELSE P(~pre, "err-but-precondition-true") \o P(g2 = g, "changed-behind-err"))
 
 MergeProblems(e, g, g2, evaluable) ==
-  IF evaluable THEN P(Lang(g2, K) = Lang(g, K), "language-changed") ELSE <<>>
+  IF evaluable THEN P(Lang(g2, KOf(g, g2)) = Lang(g, KOf(g, g2)), "language-changed") ELSE <<>>
 
 \* blockify does not touch the session graph; the result graph is e.result
 BlockifyProblems(e, g, g2) ==
@@ -196,11 +202,11 @@ Witness(A, B2) == IF A \ B2 = {} THEN <<"-">> ELSE CHOOSE s \in A \ B2 : \A u \i
 Diag(e, g) ==
   IF ~Has(e.post, "ok") \/ ~Clean(e.res) THEN [note |-> "no clean observation"]
   ELSE LET g2 == ToG(e.post.ok) IN
-       IF e.op = "merge" /\ Evaluable(ObsProblems(e.post.ok, g2)) /\ Lang(g2, K) # Lang(g, K)
-       THEN [only_before |-> Witness(Lang(g, K), Lang(g2, K)), only_after |-> Witness(Lang(g2, K), Lang(g, K))]
+       IF e.op = "merge" /\ Evaluable(ObsProblems(e.post.ok, g2)) /\ Lang(g2, KOf(g, g2)) # Lang(g, KOf(g, g2))
+       THEN [only_before |-> Witness(Lang(g, KOf(g, g2)), Lang(g2, KOf(g, g2))), only_after |-> Witness(Lang(g2, KOf(g, g2)), Lang(g, KOf(g, g2)))]
        ELSE IF e.op = "append" /\ Has(e.res, "ok") /\ Evaluable(ObsProblems(e.post.ok, g2)) /\ AppendPre(g, ToG(e.other))
-       THEN [only_expected |-> Witness(AppendExpected(g, ToG(e.other), K)[1], Lang(g2, K)),
-             only_observed |-> Witness(Lang(g2, K), AppendExpected(g, ToG(e.other), K)[1])]
+       THEN [only_expected |-> Witness(AppendExpected(g, ToG(e.other), KOf(g, g2))[1], Lang(g2, KOf(g, g2))),
+             only_observed |-> Witness(Lang(g2, KOf(g, g2)), AppendExpected(g, ToG(e.other), KOf(g, g2))[1])]
        ELSE [blocks_before |-> BlockIds(g), entry_before |-> g.entry, exit_before |-> g.exit]
 
 BeginOK(e) == Has(e.post, "ok") /\ ToG(e.post.ok) = EmptyGraph /\ Len(e.post.ok.blocks) = 0 /\ Len(e.post.ok.edges) = 0
